@@ -230,3 +230,20 @@ Theorem C04_read_is_the_loop : forall fuel rd r,
   = GoSem.after (GoSem.go_while fuel (fun _ => GoSem.Ret true) ImpProofsL.br_body (r, rd)) (fun '(_, _) => GoSem.Panics).
 Proof. exact ImpProofsL.imp_bed_read_unfold. Qed.
 Print Assumptions C04_read_is_the_loop.
+
+(* Reader as translated from iter.go (newReader, then read() until io.EOF or an error) yields,
+   to a consumer that never stops, exactly the items of the model's decode — the records in
+   order and a final error item exactly when the model has one — for every input and both
+   terminal conditions.  This composes the translated read (its inner loop over blank and
+   comment lines), the translated parseLine and the translated loop of Reader. *)
+Theorem C04_reader_is_source : forall t fuel s, (length s + 2 < fuel)%nat ->
+  exists st, ImpGen.imp_bed_Reader fuel (GoSem.Stream s (ImpProofsJ.term_code t) None)
+             = GoSem.Ret (st, map ImpProofsL.bed_item (Bio.Model.Bed.decode s t)).
+Proof. exact ImpProofsL.imp_bed_Reader_ok. Qed.
+Print Assumptions C04_reader_is_source.
+
+Theorem C04_marshal_is_source : forall b,
+  ImpGen.imp_bed_BED_MarshalText (ImpProofsG.bed_of b)
+  = match Bio.Model.Bed.write b with Ok bs => GoSem.Ret (bs, 0%Z) | _ => GoSem.Ret ([], 2%Z) end.
+Proof. exact ImpProofsG.imp_BED_MarshalText. Qed.
+Print Assumptions C04_marshal_is_source.
